@@ -16,6 +16,15 @@ CLAIMED = {
         "technique": "Coq proof by invariant over op lists + model/implementation correspondence (extracted model vs real PanicState)",
     },
 }
+CLAIMED["C18"] = {
+    "text": ("Kernel-checked theorems: for every configuration accepted by validate_seven_point (any number of points) and every "
+             "utilisation bit pattern the base rate is defined, lies in [zero,hundred], is monotone and interpolates the configured "
+             "points; borrow >= base, lend <= base on [0,1]; calc_interest_rate total for bounded non-negative fees; legacy curve "
+             "defined/bounded/monotone on [0,1]. Tied to the real InterestRateConfig::validate / InterestRateCalc by differential "
+             "execution with utilisations at every breakpoint +-2 ulp."),
+    "design_ref": "DESIGN.md §7 C18",
+    "technique": "Coq proof by induction over the point list + model/implementation correspondence (extracted model vs real calc_interest_rate)",
+}
 ALL = [f"C{i:02d}" for i in range(1, 21)]
 PENDING_REASON = "not claimed yet: model/theorems for this property are still being built (see DESIGN.md status table)"
 
